@@ -78,5 +78,7 @@ def run(ck):
   ck.assume("symbols (Gram, inverse root, graft step, norm) are interpreted in float64 numpy from the "
             "documentation; the ridge of a Newton root is eps*lambda_max*10^(retries-1) with the retry "
             "count the optimizer itself reports")
+  ck.assume("a root rejected by the acceptance gate on these well-conditioned statistics (condition number <= 2^10 "
+            "after the ridge) is reported as a violation: the stored root is then not the documented one")
   ck.assume("gradients are seeded dense normal tensors; relative ridge 2^-10 keeps the comparison well "
             "conditioned (float32 Gram noise in a null space would otherwise dominate)")
